@@ -709,7 +709,7 @@ func main() {
 	r.Assume = []string{
 		"amounts of records are within 0..21e14 (the property's quantifier); CompressAmount wraps above (2^64-1)/9 — compared with the model there, not required to round-trip",
 		"record keys (first 8 txid bytes) are distinct inside one snapshot (key collisions are property C04's subject)",
-		"secp256k1 field arithmetic is represented in the model by plain arithmetic mod p (mathKeys); compared with ParsePubkey/IsValid/GetPublicKey on every run",
+		"secp256k1 field arithmetic is represented in the model by plain arithmetic mod p (mathKeys); compared with ParsePubkey/IsValid/GetPublicKey on every run; KeyOps.Sound for mathKeys is proved from Nat.Prime p, primality of p is a hypothesis",
 		"process-level effects of save() (rename UTXO.db→UTXO.old, temp file) are not modelled; only the bytes of the final UTXO.db are",
 	}
 	if r.Replay != "" {
